@@ -34,7 +34,14 @@ def mapcoord_cases(ctx, n):
                     x = rng.choice([F(-rng.randint(1, 8), 4), F(s - 1) + F(rng.randint(1, 8), 4)])   # up to two cells outside
                 p.append(q(x))
             pts.append(p)
-        cases.append({"fn": "mapcoord", "kind": f"map_coordinates rank {rank}" + (" integer-typed array" if i % 7 == 6 else ""), "shape": shape,
+        int_axes = []
+        if i % 5 == 3:      # one axis addressed by integer-typed coordinates: nodes and whole positions outside the range
+            k = rng.randrange(rank)
+            int_axes = [k]
+            for p in pts:
+                p[k] = q(rng.choice([-2, -1, 0, shape[k] - 1, shape[k], shape[k] + 1, rng.randrange(shape[k])]))
+        cases.append({"fn": "mapcoord", "kind": f"map_coordinates rank {rank}" + (" integer-typed array" if i % 7 == 6 else "")
+                      + (" integer-typed coordinates" if int_axes else ""), "int_axes": int_axes, "shape": shape,
                       "arr": arr, "points": pts, "batched": i % 3 != 0, "tol": EXACT, "int_dtype": i % 7 == 6})
     return cases
 
